@@ -52,7 +52,7 @@ var absSpecs = map[string]absSpec{
 
 // emitAbsTrace replays the persisted configurations of one finished scenario as observer operations.
 func emitAbsTrace(spec absSpec, role string, steps []string, w *World, emit func(op, res string)) {
-	emit(fmt.Sprintf("abs.reset %s %s %s", spec.prop, leanRole(role), spec.params(steps)), "ok")
+	emit(strings.TrimSpace(fmt.Sprintf("abs.reset %s %s %s", spec.prop, leanRole(role), spec.params(steps))), "ok")
 	alive := true
 	for _, o := range w.obs {
 		switch o.Kind {
@@ -129,5 +129,15 @@ func init() {
 		}
 		return cib + " " + sf + " 0"
 	}}
+	registerAbsSlices()
+}
+
+// ngFlags: timerArmed requestSent cancelTried cancelRecv
+func ngFlags(a map[string]string) string {
+	return bit(a["timer"]) + bit(a["offersent"]) + bit(a["canceltried"]) + bit(a["cancel"])
+}
+
+func init() {
+	absSpecs["Ng"] = absSpec{prop: "Ng", roles: []string{"outSender", "inSender", "outReceiver", "inReceiver"}, flags: ngFlags, params: func([]string) string { return "" }}
 	registerAbsSlices()
 }
